@@ -68,6 +68,70 @@ func c16Outcome(c psatoken.IClaims, err error) string {
 
 type c16Probe struct{ New, CBOR, JSON string }
 
+// funcProfile: the usual parameterised IProfile implementation - a struct with
+// a constructor func field (hence NOT a comparable type).
+type funcProfile struct {
+	name string
+	mk   func() psatoken.IClaims
+	tags []string
+}
+
+func (f funcProfile) GetName() string             { return f.name }
+func (f funcProfile) GetClaims() psatoken.IClaims { return f.mk() }
+
+// c16Profile: the IProfile value handed to RegisterProfile: the comparable
+// dynProfile, the uncomparable funcProfile, or a pointer to either.
+func c16Profile(name, shape string, kind int) psatoken.IProfile {
+	d := dynProfile{name, shape}
+	switch kind % 4 {
+	case 1:
+		return funcProfile{name: name, mk: d.GetClaims, tags: []string{shape}}
+	case 2:
+		return &d
+	case 3:
+		return &funcProfile{name: name, mk: d.GetClaims}
+	}
+	return d
+}
+
+// c16Register calls RegisterProfile; a panic is reported as such.
+func c16Register(p psatoken.IProfile) (err error, panicked string) {
+	defer func() {
+		if r := recover(); r != nil {
+			panicked = fmt.Sprint(r)
+		}
+	}()
+	return psatoken.RegisterProfile(p), ""
+}
+
+// bystander documents: they declare a BUILT-IN profile cleanly and also carry
+// members / keys that other (registered or not) profiles use - with values
+// that declare nothing (numbers, booleans, arrays, objects). Their outcome
+// must be the same under every register content.
+func c16Bystanders() map[string]string {
+	r := map[string]string{}
+	b1, b2 := c16Body()
+	b2.CertRef = nil
+	for _, extra := range []string{"5", "true", "[]", "{}", "[\"http://example.com/verif/dyn/0\"]", "1.5"} {
+		for _, member := range []string{"x-profile", "timestamp", "vendor"} {
+			o := modelJN(b2)
+			o.keys, o.vals = append(o.keys, "eat-profile", member), append(o.vals, jStr(P2Name), jRaw(extra))
+			c, err := psatoken.DecodeClaimsFromJSON([]byte(o.String()))
+			r["json/P2+"+member+"="+extra] = c16Outcome(c, err)
+			o = modelJN(b1)
+			o.keys, o.vals = append(append([]string{member}, o.keys...), "psa-profile"), append(append([]*jn{jRaw(extra)}, o.vals...), jStr(P1Name))
+			c, err = psatoken.DecodeClaimsFromJSON([]byte(o.String()))
+			r["json/P1+"+member+"="+extra] = c16Outcome(c, err)
+		}
+	}
+	for _, extra := range []*icbor.Node{icbor.U(5), icbor.Bool(true), icbor.Arr(), icbor.Tstr("http://example.com/verif/dyn/0")} {
+		ps := append(bodyPairs(b2), icbor.P(icbor.U(265), icbor.Tstr(P2Name)), icbor.P(icbor.I(-75100), extra), icbor.P(icbor.I(-75000), extra))
+		c, err := psatoken.DecodeClaimsFromCBOR(icbor.Encode(icbor.Map(ps...)))
+		r["cbor/P2+"+icbor.Diag(extra)] = c16Outcome(c, err)
+	}
+	return r
+}
+
 func c16ProbeName(name string, jsonReps int) (c16Probe, string) {
 	var p c16Probe
 	c, err := psatoken.NewClaims(name)
@@ -95,7 +159,9 @@ type c16Inst struct {
 
 type c16Machine struct {
 	reg                                 map[string]string // dyn name -> shape
+	regKind                             map[string]int    // dyn name -> kind of IProfile value registered
 	pristine                            map[string]c16Probe
+	bystanders                          map[string]string
 	insts                               []*c16Inst
 	trace                               []string
 	failedReg, mutated, readAfterMutate bool
@@ -138,6 +204,12 @@ func (mc *c16Machine) checkAll(t *rapid.T) {
 		mc.checkName(t, n, 2)
 	}
 	mc.checkConflicts(t, 6)
+	now := c16Bystanders()
+	for k, want := range mc.bystanders {
+		if now[k] != want {
+			mc.fail(t, "a document that declares a built-in profile (%s) decodes differently after profiles were registered: %s, on the pristine register %s", k, now[k], want)
+		}
+	}
 }
 
 // checkConflicts: a JSON document whose profile members name TWO different
@@ -313,7 +385,7 @@ func scribbleInPlace(c psatoken.IClaims, salt byte) {
 func c16Run(t *rapid.T, st *Stats) {
 	restore := psatoken.VerifCheckpointProfiles()
 	defer restore()
-	mc := &c16Machine{reg: map[string]string{}, pristine: map[string]c16Probe{}}
+	mc := &c16Machine{reg: map[string]string{}, regKind: map[string]int{}, pristine: map[string]c16Probe{}}
 	for _, n := range c16Universe {
 		p, msg := c16ProbeName(n, 2)
 		if msg != "" {
@@ -321,6 +393,7 @@ func c16Run(t *rapid.T, st *Stats) {
 		}
 		mc.pristine[n] = p
 	}
+	mc.bystanders = c16Bystanders()
 	// sanity of the pristine register (the harness's own expectations)
 	if mc.pristine[c16DynNames[0]].New != "error" || !strings.HasPrefix(mc.pristine[P2Name].CBOR, "*psatoken.P2Claims") {
 		t.Fatalf("VERIF-INFRA: unexpected pristine battery: %+v", mc.pristine)
@@ -342,11 +415,13 @@ func c16Run(t *rapid.T, st *Stats) {
 			}
 			name := rapid.SampledFrom(free).Draw(t, "name")
 			shape := rapid.SampledFrom([]string{"ext-p2", "ext-p1", "own-tag"}).Draw(t, "shape")
-			mc.log("Register(%s as %s)", name[len(name)-5:], shape)
-			if err := psatoken.RegisterProfile(dynProfile{name, shape}); err != nil {
-				mc.fail(t, "registering a new profile %q (%s) fails: %v", name, shape, err)
+			kind := rapid.IntRange(0, 3).Draw(t, "profile.kind")
+			mc.log("Register(%s as %s, %T)", name[len(name)-5:], shape, c16Profile(name, shape, kind))
+			if err, pmsg := c16Register(c16Profile(name, shape, kind)); err != nil || pmsg != "" {
+				mc.fail(t, "registering a new profile %q (%s) fails: %v %s", name, shape, err, pmsg)
 			}
 			mc.reg[name] = shape
+			mc.regKind[name] = kind
 			mc.checkAll(t)
 		case "register-existing":
 			pool := []string{P1Name, P2Name, ""}
@@ -356,8 +431,16 @@ func c16Run(t *rapid.T, st *Stats) {
 			sortStrings(pool)
 			name := rapid.SampledFrom(pool).Draw(t, "name")
 			shape := rapid.SampledFrom([]string{"ext-p2", "ext-p1", "own-tag"}).Draw(t, "shape")
-			mc.log("Register(EXISTING %q as %s)", name, shape)
-			if err := psatoken.RegisterProfile(dynProfile{name, shape}); err == nil {
+			// the same kind of IProfile value as the first registration of
+			// that name used (same Go type), or another one
+			kind := rapid.IntRange(0, 3).Draw(t, "profile.kind")
+			if k, ok := mc.regKind[name]; ok && genBool.Draw(t, "samekind") {
+				kind = k
+			}
+			mc.log("Register(EXISTING %q as %s, %T)", name, shape, c16Profile(name, shape, kind))
+			if err, pmsg := c16Register(c16Profile(name, shape, kind)); pmsg != "" {
+				mc.fail(t, "registering a profile under the existing name %q PANICS instead of returning an error: %s", name, pmsg)
+			} else if err == nil {
 				mc.fail(t, "registering a profile under the existing name %q succeeded", name)
 			}
 			mc.failedReg = true
@@ -366,7 +449,9 @@ func c16Run(t *rapid.T, st *Stats) {
 			name := rapid.SampledFrom(c16DynNames).Draw(t, "name")
 			shape := rapid.SampledFrom([]string{"no-profile-field", "no-json-tag", "lookalike-keys"}).Draw(t, "shape")
 			mc.log("Register(%s as %s)", name[len(name)-5:], shape)
-			if err := psatoken.RegisterProfile(dynProfile{name, shape}); err == nil {
+			if err, pmsg := c16Register(c16Profile(name, shape, rapid.IntRange(0, 3).Draw(t, "profile.kind"))); pmsg != "" {
+				mc.fail(t, "registering a profile whose claims type has no identifiable profile field (%s) PANICS: %s", shape, pmsg)
+			} else if err == nil {
 				mc.fail(t, "registering a profile whose claims type has no identifiable profile field (%s) succeeded", shape)
 			}
 			mc.failedReg = true
